@@ -218,7 +218,8 @@ Proof.
 Qed.
 
 (* ---------- the kick descriptor ---------- *)
-Lemma event_rx_on_O : forall s, OD s -> 0 <= active_ref s -> ARes OD (fst (event_rx_on s)).
+Lemma event_rx_on_O : forall s, OD s -> 0 <= active_ref s ->
+  ARes (fun s' => OD s' /\ rw_reg s' = rw_reg s) (fst (event_rx_on s)).
 Proof.
   intros s D NN. unfold event_rx_on.
   set (P := fun s1 => exists N, KOn N (kern s) (kern s1) /\
@@ -234,7 +235,7 @@ Proof.
     destruct (eventfd_grab (kern s) (efd_epoll s)) as [[k1 [fd|e]] u]; cbn [fst snd] in K.
     - pose proof (KO_write k1 fd 8 1) as K2. destruct (k_write k1 fd 8 1) as [k2 x]. cbn [fst] in K2. cbn [ARes].
       exists [fd]. split; [eapply KOn_r; eassumption|]. split; [reflexivity|]. split; [reflexivity|]. right. split; [exact Z0|].
-      intros x [<-|[]]. left. reflexivity.
+      intros y [<-|[]]. left. reflexivity.
     - cbv zeta. set (s0 := set_efd (set_kern s k1) u (efd_raw s)).
       pose proof (pipe_KOn (kern s0)) as KP.
       destruct (k_pipe (kern s0)) as [k2 [[r w]|]]; cbn [fst snd] in KP; [|exact I].
@@ -246,9 +247,9 @@ Proof.
   - cbn [ARes] in Q. destruct Q as (N & K & E & AR & CASE). cbv zeta.
     set (s2 := set_activefd s1 (active_fd s1) (active_ref s1 + 1)).
     destruct (ctl_retry s2 CTL_ADD (active_fd s2) 0 (-1)) as [s3 e] eqn:C. apply ctl_retry_OF in C.
-    assert (D3 : OD s3).
+    assert (D3 : OD s3 /\ rw_reg s3 = rw_reg s).
     { destruct C as [KC EC]. unfold owners in EC. inversion EC as [[C1 C2 C3 C4 C5 C6 C7 C8 C9]].
-      inversion E as [[E1 E2 E4 E5 E6]]. cbn [s2 epfd tfd rw_reg rw_rfd rw_wfd active_fd active_wr active_ref set_activefd] in *.
+      inversion E as [[E1 E2 E4 E5 E6]]. split; [|congruence]. cbn [s2 epfd tfd rw_reg rw_rfd rw_wfd active_fd active_wr active_ref set_activefd] in *.
       apply (OD_step N s); [exact D|eapply KOn_r; [exact K|exact KC]| |].
       - intros fd _ [H|[H|[(j' & RJ' & H)|H]]]; left; unfold Own.
         + left. congruence.
@@ -258,6 +259,105 @@ Proof.
           rewrite C7, C8, C9, A1, A2, AR. split; [lia|apply H].
       - intros fd IN. right; right; right. rewrite C7, C8, C9.
         destruct CASE as [(_ & -> & _)|(Z0 & NW)]; [destruct IN|]. split; [lia|apply NW; exact IN]. }
-    destruct e; cbn [fst ARes]; [exact D3|]. eapply OD_OF; [exact D3|of_plain].
+    destruct e; cbn [fst ARes]; [exact D3|]. split; [eapply OD_OF; [apply D3|of_plain]|apply D3].
   - cbn [fst ARes]. exact I.
+Qed.
+
+Lemma event_rx_off_O : forall s, OD s -> ARes OD (event_rx_off s).
+Proof.
+  intros s D. unfold event_rx_off.
+  destruct (ctl_retry s CTL_DEL (active_fd s) 0 (-1)) as [s1 e] eqn:C. apply ctl_retry_OF in C.
+  destruct e; [exact I|]. cbv zeta. cbn [ARes].
+  destruct C as [K1 E1]. unfold owners in E1. inversion E1 as [[C1 C2 C3 C4 C5 C6 C7 C8 C9]].
+  set (s2 := set_activefd s1 (active_fd s1) (active_ref s1 - 1)).
+  match goal with |- OD (set_numobjs ?S3 _) => set (s3 := S3) end.
+  assert (A3 : KO (kern s1) (kern s3) /\
+               (epfd s3, tfd s3, rw_reg s3, rw_rfd s3, rw_wfd s3) = (epfd s1, tfd s1, rw_reg s1, rw_rfd s1, rw_wfd s1) /\
+               active_ref s3 = active_ref s1 - 1 /\
+               (active_ref s1 - 1 <> 0 -> active_fd s3 = active_fd s1 /\ active_wr s3 = active_wr s1) /\
+               (active_ref s1 - 1 = 0 -> (1000 <= active_fd s1 -> k_open (kern s3) (active_fd s1) = None) /\
+                                          (1000 <= active_wr s1 -> k_open (kern s3) (active_wr s1) = None))).
+  { unfold s3. change (active_ref s2) with (active_ref s1 - 1).
+    destruct (Z.eqb_spec (active_ref s1 - 1) 0) as [Z0|NZ].
+    2:{ split; [apply KO_refl|]. split; [reflexivity|]. split; [reflexivity|]. split; [intros _; split; reflexivity|intros X; contradiction]. }
+    destruct (do_close_OF s2 (active_fd s2)) as [[KA EA] CA]. set (sa := do_close s2 (active_fd s2)) in *.
+    unfold owners in EA. inversion EA as [[A1 A2 A3 A4 A5 A6 A7 A8 A9]].
+    destruct (Z.eqb_spec (active_wr sa) (-1)) as [W1|NW].
+    - split; [exact KA|]. split; [congruence|]. split; [rewrite A9; reflexivity|]. split; [intros X; exfalso; lia|].
+      intros _. split; [intros _; try rewrite A7; exact CA|]. intros LW. rewrite A8 in W1. change (active_wr s2) with (active_wr s1) in W1. lia.
+    - destruct (do_close_OF sa (active_wr sa)) as [[KB EB] CB]. set (sb := do_close sa (active_wr sa)) in *.
+      unfold owners in EB. inversion EB as [[B1 B2 B3 B4 B5 B6 B7 B8 B9]].
+      cbn [kern epfd tfd rw_reg rw_rfd rw_wfd active_ref set_activewr].
+      split; [eapply KO_trans; eassumption|]. split; [congruence|]. split; [rewrite B9, A9; reflexivity|]. split; [intros X; exfalso; lia|].
+      intros _. split.
+      + intros LL. rewrite ?B7, ?A7 in LL |- *. apply (KO_none (kern sa)); [exact KB|exact LL|exact CA].
+      + intros _. rewrite ?B8 in *. exact CB. }
+  destruct A3 as (K3 & E3 & R3 & NZ3 & Z3). inversion E3 as [[F1 F2 F4 F5 F6]].
+  apply (OD_step [] s); [exact D|cbn [kern set_numobjs]; eapply KO_trans; eassumption| |intros fd []].
+  intros fd L [H|[H|[(j' & RJ' & H)|H]]]; unfold Own; cbn [epfd tfd rw_reg rw_rfd rw_wfd active_ref active_fd active_wr set_numobjs kern].
+  - left. left. congruence.
+  - left. right; left. congruence.
+  - left. right; right; left. exists j'. rewrite F4, F5, F6, C4, C5, C6. tauto.
+  - destruct (Z.eq_dec (active_ref s1 - 1) 0) as [Z0|NZ].
+    + right. destruct (Z3 Z0) as [CA CW]. destruct H as [_ [H|H]]; rewrite H in *.
+      * rewrite <- C7. apply CA. rewrite C7. exact L.
+      * rewrite <- C8. apply CW. rewrite C8. exact L.
+    + left. right; right; right. destruct (NZ3 NZ) as [X1 X2]. rewrite R3, X1, X2, C7, C8. split; [exact NZ|apply H].
+Qed.
+
+(* ---------- events ---------- *)
+Lemma event_register_O : forall s j, OD s -> 0 <= active_ref s -> (ev_count s = 0 -> rw_reg s KICK_RAW = false) ->
+  ARes OD (fst (event_register s j)).
+Proof.
+  intros s j D NN KR. unfold event_register. cbv zeta.
+  set (s0 := set_ev (set_numobjs s (numobjs s + 1)) _ _ _).
+  assert (T0 : OF s s0) by (unfold s0; of_plain).
+  destruct (Z.eqb_spec (ev_count (set_numobjs s (numobjs s + 1))) 0) as [Z0|NZ].
+  2:{ cbn [fst bind ARes]. eapply OD_OF; [exact D|]. eapply OF_trans; [exact T0|of_plain]. }
+  specialize (KR Z0).
+  assert (ST : forall r, ARes (fun s' => OD s' /\ rw_reg s' = rw_reg s) r ->
+    ARes OD (fst (let '(r0, failed) :=
+          match r with
+          | Halt s1 => (Halt s1, false)
+          | R s1 =>
+              if use_raw s1 then
+                match raw_register s1 KICK_RAW with
+                | (R s2, true) =>
+                    (R (set_numobjs (set_ev s2 (ev_count s2 - 1) (ev_reg s2) (use_raw s2)) (numobjs s2 - 1)), true)
+                | (r2, fl) => (r2, fl)
+                end
+              else (R s1, false)
+          end in
+        if failed then (r0, true)
+        else (bind r0 (fun s => R (set_ev s (ev_count s) (upd (ev_reg s) j true) (use_raw s))), false)))).
+  { intros r Q. destruct r as [s1|s1]; [|exact I]. cbn [ARes] in Q. destruct Q as [D1 R1].
+    destruct (use_raw s1).
+    - pose proof (raw_register_O s1 KICK_RAW D1 ltac:(rewrite R1; exact KR)) as Q2.
+      destruct (raw_register s1 KICK_RAW) as [[s2|s2] fl]; cbn [fst ARes] in Q2; destruct fl; cbn [fst bind ARes]; try exact I.
+      + eapply OD_OF; [exact Q2|of_plain].
+      + eapply OD_OF; [exact Q2|of_plain].
+    - cbn [fst bind ARes]. eapply OD_OF; [exact D1|of_plain]. }
+  assert (D0 : OD s0) by (eapply OD_OF; eassumption).
+  destruct (negb (use_raw s0)).
+  - destruct (is_epoll s0).
+    + pose proof (event_rx_on_O s0 D0 NN) as Q.
+      destruct (event_rx_on s0) as [[s1|s1] fl]; cbn [fst ARes] in Q; [destruct fl|].
+      * apply (ST (R _)). cbn [ARes]. destruct Q as [Q1 Q2]. split; [eapply OD_OF; [exact Q1|of_plain]|exact Q2].
+      * apply (ST (R s1)). exact Q.
+      * apply (ST (Halt s1)). exact I.
+    + apply (ST (R _)). cbn [ARes]. split; [eapply OD_OF; [exact D0|of_plain]|reflexivity].
+  - apply (ST (R s0)). cbn [ARes]. split; [exact D0|reflexivity].
+Qed.
+
+Lemma event_unregister_O : forall s j, OD s ->
+  (use_raw s = true -> ev_count s = 1 -> efd_raw s <> 0 -> rw_wfd s KICK_RAW = rw_rfd s KICK_RAW) ->
+  ARes OD (event_unregister s j).
+Proof.
+  intros s j D EV. unfold event_unregister. cbv zeta.
+  set (s0 := set_ev _ _ _ _). assert (D0 : OD s0) by (eapply OD_OF; [exact D|unfold s0; of_plain]).
+  eapply ARes_bind with (P := OD).
+  - destruct (Z.eqb_spec (ev_count s0) 0) as [Z0|NZ]; [|exact D0].
+    destruct (use_raw s0) eqn:UR; [|apply event_rx_off_O; exact D0].
+    apply raw_unregister_O; [exact D0|]. apply EV; [exact UR|]. cbn in Z0. lia.
+  - cbn beta. intros s1 Q. cbn [ARes]. eapply OD_OF; [exact Q|of_plain].
 Qed.
